@@ -141,9 +141,51 @@ func TestC16_MonitorModel(t *testing.T) {
 		before, _ := libGoroutines()
 		cb := newCbLog()
 		handlerBlocks := rapid.IntRange(0, 2).Draw(t, "handlerBlocks") == 0
-		m, err := kcache.NewMonitor(fakePublisher{p}, cb.handler())
+		// closeFromHandler >= 0: that callback (0 = OnInitialize, k = the k-th event callback) calls
+		// Close() on its own monitor - "stop watching once the object showed up" - which must return
+		closeFromHandler := -1
+		if rapid.IntRange(0, 4).Draw(t, "closeFromHandler") == 0 {
+			closeFromHandler = rapid.IntRange(0, 4).Draw(t, "closeAtCallback")
+			handlerBlocks = false
+		}
+		var monRef atomic.Value
+		var ncb int32
+		var closeStuck int32
+		inner := cb.handler()
+		after := func() {
+			k := int(atomic.AddInt32(&ncb, 1)) - 1
+			if k != closeFromHandler {
+				return
+			}
+			mon, _ := monRef.Load().(kcache.Monitor)
+			if mon == nil {
+				return
+			}
+			returned := make(chan struct{})
+			go func() { mon.Close(); close(returned) }()
+			select {
+			case <-returned:
+			case <-time.After(wedgeBoundNow()):
+				atomic.StoreInt32(&closeStuck, 1)
+			}
+		}
+		handler := kcache.BuildHandler().
+			OnInitialize(func(objs []metav1.Object) { inner.OnInitialize(objs); after() }).
+			OnCreate(func(o metav1.Object) { inner.OnCreate(o); after() }).
+			OnUpdate(func(o metav1.Object) { inner.OnUpdate(o); after() }).
+			OnDelete(func(o metav1.Object) { inner.OnDelete(o); after() }).Create()
+		m, err := kcache.NewMonitor(fakePublisher{p}, handler)
+		if err == nil {
+			monRef.Store(m)
+		}
 		if err != nil {
 			t.Fatalf("NewMonitor: %v", err)
+		}
+		var closeCalls []chan struct{}
+		closeAsync := func() {
+			ch := make(chan struct{})
+			closeCalls = append(closeCalls, ch)
+			go func() { m.Close(); close(ch) }()
 		}
 		fail := func(format string, args ...interface{}) {
 			cb.unblock()
@@ -168,7 +210,7 @@ func TestC16_MonitorModel(t *testing.T) {
 			if end == "before-ready-terminate" {
 				p.terminate()
 			} else {
-				m.Close()
+				closeAsync()
 			}
 			observeDone(end)
 			time.Sleep(200 * time.Microsecond)
@@ -223,16 +265,42 @@ func TestC16_MonitorModel(t *testing.T) {
 			}
 		}
 		exact := true
+		if closeFromHandler >= 0 && !strings.HasPrefix(end, "before-ready") {
+			// the handler closes its own monitor at some callback: Close() must return there, Done() must
+			// close, and what was delivered is a prefix of the stream
+			end = "closed-by-its-own-handler"
+			exact = false
+			deadline := time.Now().Add(2 * wedgeBoundNow())
+			for int(atomic.LoadInt32(&ncb)) <= closeFromHandler && int(atomic.LoadInt32(&ncb)) < 1+len(pushed) && !isClosedCh(m.Done()) && time.Now().Before(deadline) {
+				time.Sleep(50 * time.Microsecond)
+			}
+			if int(atomic.LoadInt32(&ncb)) > closeFromHandler {
+				select {
+				case <-m.Done():
+				case <-time.After(2 * wedgeBoundNow()):
+				}
+			}
+			if atomic.LoadInt32(&closeStuck) != 0 {
+				fail("Close() called by the monitor's own handler (in callback #%d) did not return: the monitor waits for the callback that is waiting for it", closeFromHandler)
+			}
+			if int(atomic.LoadInt32(&ncb)) > closeFromHandler {
+				observeDone("Close() from the monitor's own handler")
+			} else {
+				// the stream was too short for that callback to happen: close from outside
+				closeAsync()
+				observeDone("Close()")
+			}
+		}
 		switch end {
 		case "open", "close-quiet":
 			cb.unblock()
 			waitCallbacks(len(pushed), "handler released, subscription open")
 			if end == "close-quiet" {
-				m.Close()
+				closeAsync()
 				observeDone("Close() with nothing pending")
 			}
 		case "close-pending":
-			m.Close() // events may still be queued (certainly when the handler blocks)
+			closeAsync() // events may still be queued (certainly when the handler blocks)
 			exact = false
 			time.Sleep(time.Duration(rapid.IntRange(0, 300).Draw(t, "holdUs")) * time.Microsecond)
 			cb.unblock()
@@ -291,12 +359,19 @@ func TestC16_MonitorModel(t *testing.T) {
 			}
 		}
 		if end == "open" {
-			m.Close()
+			closeAsync()
 			observeDone("final Close()")
 		}
 		if strings.HasPrefix(end, "close") || end == "open" {
 			if atomic.LoadInt32(&p.closes) == 0 {
 				fail("Monitor.Close() did not close its subscription")
+			}
+		}
+		for _, ch := range closeCalls {
+			select {
+			case <-ch:
+			case <-time.After(wedgeBoundNow()):
+				fail("WEDGE: a Monitor.Close() call never returned although the monitor is done and no callback is held")
 			}
 		}
 		if c, dump := waitLibGoroutinesAtMost(before, wedgeBoundNow()); c > before {
